@@ -35,6 +35,9 @@ META = dict(
 OBLIGATIONS = [
     "C11_logging_transparent", "C11_logging_transparent_example", "C11_drawing_observer_refuted",
     "C11_reseed", "C11_reseed_call", "C11_settings_copied", "C11_settings_alias_refuted",
+    # composition with C01 (coq/theories/Compose/): the interface hypothesis discharged on the real State model
+    "C11_state_interface_discharged", "C11_cell_is_state_object", "C11_reachable_states_consistent",
+    "C11_logging_transparent_state", "C11_fit_is_state_history", "C11_state_example",
 ]
 
 SCRATCH = f"/tmp/scratch/c11-check-{os.getpid()}"
